@@ -69,6 +69,13 @@ def run(rep, tier, seed, model_ok=True, effort=1):
                 prj.git("config", k, v)
             prj.git("add", "-A")
             prj.git("commit", "-q", "-m", "initial")
+            # every fifth history runs in a LINKED WORKTREE of the repository (`git worktree add`): there .git is a file, not a directory
+            main_dir, linked = prj.dir, None
+            if h % 5 == 2 and not scripted:
+                linked = prj.dir + "_wt"
+                prj.git("worktree", "add", "-q", "-b", "linked", linked)
+                prj.dir = linked
+                rep.count("histories-in-linked-worktree")
             cur = spec["old"]
             date = spec["date"]
             steps = len(scripted) if scripted else r.randrange(1, 13)
@@ -95,7 +102,7 @@ def run(rep, tier, seed, model_ok=True, effort=1):
                     continue
                 if op == "branch":
                     if on_feature:
-                        prj.git("checkout", "-q", "main")
+                        prj.git("checkout", "-q", "linked" if linked else "main")
                     else:
                         prj.git("checkout", "-q", "-B", "feature")
                     on_feature = not on_feature
@@ -186,6 +193,10 @@ def run(rep, tier, seed, model_ok=True, effort=1):
                 cur = new_a
             traces.append(trace)
             rep.sample(dict(version_pattern=spec["vp"], start=spec["old"], ops=trace, final=cur))
+            if linked:
+                prj.dir = main_dir
+                import shutil
+                shutil.rmtree(linked, ignore_errors=True)
     if model_ok and traces:
         items = ["[%s]" % ";".join(t) for t in traces]
         bad, errs = common.coq_eval("c08", HDR, "list op", "fun ops => consistent (run_ops ops init_state)", items, shard=200)
